@@ -11,8 +11,8 @@ import time
 from . import run as R
 from .run import VERIF, REPO
 
-OUT = os.path.join(VERIF, 'out')
-EVID = os.path.join(VERIF, 'evidence')
+OUT = os.environ.get('VF_OUT') or os.path.join(VERIF, 'out')
+EVID = os.path.join(OUT, 'evidence') if os.environ.get('VF_OUT') else os.path.join(VERIF, 'evidence')
 KNOWN = os.path.join(VERIF, 'known_findings.txt')
 NCPU = int(os.environ.get('VF_JOBS', '0')) or 2 * (os.cpu_count() or 4)
 
